@@ -446,7 +446,14 @@ def build(case):
         if k == 'num':
             v = n['v']
             if n.get('raw'):
-                o = int(v) if float(v).is_integer() and abs(v) < 100 else float(v)
+                # optional 'pytype': the Python type the caller writes the literal with (default: int when integer-valued)
+                pt = n.get('pytype')
+                if pt == 'bool' and v in (0.0, 1.0):
+                    o = bool(v)
+                elif pt == 'float':
+                    o = float(v)
+                else:
+                    o = int(v) if float(v).is_integer() and abs(v) < 100 else float(v)
             else:
                 o = Numeric(v)
         elif k == 'beta':
